@@ -13,6 +13,10 @@ import (
 	"time"
 
 	mrserver "github.com/alicebob/miniredis/v2/server"
+	corev1 "k8s.io/api/core/v1"
+	metav1 "k8s.io/apimachinery/pkg/apis/meta/v1"
+	"k8s.io/apimachinery/pkg/types"
+	ctrl "sigs.k8s.io/controller-runtime"
 	envoy "github.com/envoyproxy/go-control-plane/envoy/service/auth/v3"
 
 	"github.com/istio-ecosystem/authservice/internal/oidc"
@@ -20,11 +24,12 @@ import (
 
 // probe reads the real store's content for sid without side effects.
 func (d *driver) probe(s *spyStore, sid string, filter string) map[string]any {
-	onlyDB := -1
+	onlyDB, onlySrv := -1, ""
 	if f := d.env.fspec[filter]; f != nil {
-		onlyDB = 0
+		onlyDB, onlySrv = 0, f.Store
 		if i := strings.Index(f.Store, "#"); i >= 0 {
 			_, _ = fmt.Sscanf(f.Store[i+1:], "%d", &onlyDB)
+			onlySrv = f.Store[:i]
 		}
 	}
 	out := map[string]any{"known": false, "ex": false, "auth": false, "tok": false}
@@ -36,7 +41,10 @@ func (d *driver) probe(s *spyStore, sid string, filter string) map[string]any {
 		return out
 	}
 	if isR, _, _ := oidc.VerifIsRedis(s.real); isR {
-		for _, srv := range d.env.mr {
+		for name, srv := range d.env.mr {
+			if onlySrv != "" && name != onlySrv {
+				continue
+			}
 			for db := 0; db < 3; db++ {
 				if onlyDB >= 0 && db != onlyDB {
 					continue
@@ -296,6 +304,38 @@ func (d *driver) parallelFlows(st *Step) {
 	wg.Wait()
 }
 
+func (d *driver) setSecret(name, value string) error {
+	e := d.env
+	if e.kube == nil {
+		return fmt.Errorf("scenario has no filter with a secret reference")
+	}
+	ctx := context.Background()
+	sec := &corev1.Secret{}
+	key := types.NamespacedName{Namespace: "own", Name: name}
+	if err := e.kube.Get(ctx, key, sec); err != nil {
+		sec = &corev1.Secret{ObjectMeta: metav1.ObjectMeta{Namespace: "own", Name: name}, Data: map[string][]byte{"client-secret": []byte(value)}}
+		if err := e.kube.Create(ctx, sec); err != nil {
+			return err
+		}
+	} else {
+		sec.Data = map[string][]byte{"client-secret": []byte(value)}
+		if err := e.kube.Update(ctx, sec); err != nil {
+			return err
+		}
+	}
+	if old, ok := e.curSec[name]; ok && old != value {
+		d.oldSecrets = append(d.oldSecrets, old)
+	}
+	if e.curSec == nil {
+		e.curSec = map[string]string{}
+	}
+	e.curSec[name] = value
+	d.rec.addSecret(value, "clientSecret")
+	_, err := e.secrets.Reconcile(ctx, ctrl.Request{NamespacedName: key})
+	d.rec.emit(map[string]any{"ev": "noop", "c": "secret"})
+	return err
+}
+
 func (d *driver) doAuthz(b string, lg *login) {
 	br := d.browser(b)
 	code, sym := d.idp.authorize(lg)
@@ -318,8 +358,10 @@ func (d *driver) runScenario(sc *Scenario) (err error) {
 	d.brs = map[string]*browser{}
 	d.forged = 0
 	d.scID = sc.ID
+	d.scN++
 	d.codeOwner = map[string]*checkRun{}
 	d.rtReader = map[string]*checkRun{}
+	d.oldSecrets = nil
 	if sc.Store != "" {
 		for i := range sc.Cfg.Filters {
 			sc.Cfg.Filters[i].Store = sc.Store
@@ -377,6 +419,16 @@ func (d *driver) runScenario(sc *Scenario) (err error) {
 			d.browse(st)
 		case "parallel":
 			d.parallelFlows(st)
+		case "secret":
+			// the Kubernetes Secret st.F gets the value st.Value and the controller reconciles it
+			if err := d.setSecret(st.F, st.Value); err != nil {
+				return err
+			}
+		case "idpctl":
+			d.idp.mu.Lock()
+			d.idp.discoveryOutage = st.D
+			d.idp.mu.Unlock()
+			d.rec.emit(map[string]any{"ev": "noop", "c": "idpctl"})
 		case "keyset":
 			d.setKeySet(st.Value)
 			d.rec.emit(map[string]any{"ev": "keyset", "set": ifs(st.Value == "", "k1k2", st.Value)})
